@@ -87,9 +87,12 @@ CLAIMED = {
          "range (no precondition on sortedness). from_tzif ends in validate()? so nothing it returns violates tz_wf. (3) Parser pieces that "
          "Verus can read are panic-free for every input: all 8 Cursor methods (split_at, indexing), DataBlock::parse (count arithmetic) and "
          "the footer field parsers remove_designation, parse_hms, parse_tz_string_offset(_extended), parse_tz_string_rule - every "
-         "expect(BUG_MSG) in them is a discharged obligation. NOT covered: Header::parse (slice patterns), the body of from_tzif "
-         "(chunks_exact/zip, from_be_bytes conversions) and from_tz_string (str functions).",
-    note=TB + "lookups are proved for timestamps whose UTC year is within +-5_879_500; that from_tzif returns only validated data is a syntactic check of its source text on every run (single Ok exit `x.validate()?; Ok(x)`), not a proof; parse_int is assumed not to panic (its input is cut from a checked UTF-8 string at ASCII bytes); 64-bit usize; Offset::resolve's fallback is outside (cfg(unix), fs).", ref="5 C19"),
+         "expect(BUG_MSG) in them is a discharged obligation - and the footer parser TransitionRule::from_tz_string itself, for every byte string "
+         "and either flag (its five std text calls go through total wrappers; `-std_offset` and `std_offset - 3600` cannot overflow by the "
+         "offset parser's range postcondition). parse_int's str::from_utf8(..).expect(..) is discharged through a cursor invariant: the "
+         "remaining bytes stay valid UTF-8 because every cut is next to an ASCII byte (three UTF-8 axioms). Header::parse (slice patterns) "
+         "is a loop-free Kani harness. NOT covered by a proof: the body of from_tzif (chunks_exact/zip, from_be_bytes conversions).",
+    note=TB + "lookups are proved for timestamps whose UTC year is within +-5_879_500; that from_tzif returns only validated data is a syntactic check of its source text on every run (single Ok exit `x.validate()?; Ok(x)`), not a proof; parse_int (generic over FromStr) is declared, not extracted: assumed not to panic on valid UTF-8 (that its argument is valid UTF-8 is proved); three UTF-8 axioms and the totality of str::from_utf8/starts_with/ends_with/contains/trim_matches are trusted; 64-bit usize; Offset::resolve's fallback is outside (cfg(unix), fs).", ref="5 C19"),
  'C11': dict(
     category='other', engine='kani',
     technique='per-row loop-free Kani/CBMC harnesses over full-domain symbolic values on the real format_date_part / format_time_part, renderers and calendar getters replaced by recording stubs (-Z stubbing)',
